@@ -1,20 +1,28 @@
 #!/bin/bash
-# Runs every deliberate property-breaking patch under mutations/ (and seeded/*/patch.diff) against the
-# check of its property (quick tier unless the patch name is listed in mutations/THOROUGH) and prints a table.
+# Runs every deliberate property-breaking patch under mutations/ and every independently seeded
+# change under seeded/*/patch.diff against the check of its property (quick tier unless the name is
+# listed in mutations/THOROUGH), plus the cross-checks of seeded/CROSS, and prints one line each:
+#   name | check | tier | DETECTED/MISSED
 cd "$(dirname "$0")"
 out=${1:-build/mutations.log}
 mkdir -p build
 : > $out
-for p in mutations/*.diff seeded/*/patch.diff; do
-  [ -f "$p" ] || continue
-  if [[ $p == seeded/* ]]; then
-    d=$(dirname $p); id=$(python3 -c "import json;print(json.load(open('$d/meta.json'))['property'])")
-    name=$(basename $d)
-  else
-    name=$(basename $p .diff); id=$(echo $name | cut -d- -f1 | tr a-z A-Z)
-  fi
-  tier=quick
-  grep -qx "$name" mutations/THOROUGH 2>/dev/null && tier=thorough
-  res=$(./mutate.sh $p $id $tier 2>&1 | tail -1)
-  echo "$name | $id | $tier | $res" | tee -a $out
+one() { # name patch id tier
+  res=$(./mutate.sh $2 $3 $4 2>&1 | tail -1 | awk '{print $1}')
+  echo "$1 | $3 | $4 | $res" | tee -a $out
+}
+for p in mutations/*.diff; do
+  name=$(basename $p .diff); id=$(echo $name | cut -d- -f1 | tr a-z A-Z)
+  tier=quick; grep -qx "$name" mutations/THOROUGH 2>/dev/null && tier=thorough
+  one $name $p $id $tier
+done
+for d in seeded/*/; do
+  name=$(basename $d); id=$(python3 -c "import json;print(json.load(open('$d/meta.json'))['property'])")
+  tier=quick; grep -qx "$name" mutations/THOROUGH 2>/dev/null && tier=thorough
+  one $name $d/patch.diff $id $tier
+done
+grep -v '^#' seeded/CROSS | while read name chk; do
+  [ -z "$name" ] && continue
+  id=${chk%%:*}; tier=quick; [[ $chk == *:thorough ]] && tier=thorough
+  one $name seeded/$name/patch.diff $id $tier
 done
